@@ -4,7 +4,10 @@ prop("C33",
                "NeoFS.SigChain.verifyReq_no_nilDeref", "NeoFS.SigChain.walk_layer_bound",
                "NeoFS.SigChain.tamper_body", "NeoFS.SigChain.tamper_meta", "NeoFS.SigChain.tamper_origin",
                "NeoFS.SigChain.depth_mismatch_rejected", "NeoFS.SigChain.outer_body_sig_rejected",
-               "NeoFS.SigChain.bindingScheme_binding", "NeoFS.SigChain.flat_variant_ignores_inner_layers"],
+               "NeoFS.SigChain.bindingScheme_binding", "NeoFS.SigChain.flat_variant_ignores_inner_layers",
+               "NeoFS.SigChain.author_is_verified_signer", "NeoFS.SigChain.author_is_verified_signer_entry",
+               "NeoFS.SigChain.author_no_panic_when_accepted", "NeoFS.SigChain.forwarded_chain_has_no_author",
+               "NeoFS.SigChain.innermost_author_unverified"],
      engines=[dict(name="sigchain", quick=1, thorough=1)],
      claim="Lean proves, for EVERY request (any depth of the meta and verification chains, any layer contents), every signature primitive "
            "(an arbitrary decision function: no cryptography is proved) and both protocol variants, by induction over the verification chain: "
@@ -17,9 +20,16 @@ prop("C33",
            "peer; a present header is never exempt. Under the ideal-scheme hypothesis Binding (one signature value is accepted for at most one "
            "message; shown satisfiable) changing the body, any checked layer's meta header, or anything below any layer of the verification chain "
            "of an accepted request makes it rejected; a depth mismatch and an outer body signature are rejected whatever the signatures; the "
-           "depth check makes the loop's nil dereference unreachable. Tied to the real icrypto.VerifyRequestSignatures / WithContext / N3 by a "
+           "depth check makes the loop's nil dereference unreachable. WHOSE request it is (GetRequestAuthor, the key the ACL layer classifies): "
+           "for every accepted request the author, if one is named, is the key of the TOP verification header's body signature and the check "
+           "of exactly that (key, scheme, signature) over exactly the request's body was performed successfully by verification "
+           "(author_is_verified_signer, also through the entry points); GetRequestAuthor's dropped key-decoding error cannot hit an accepted "
+           "request; an accepted forwarded request of the chain variant has no author (top layer without body signature, origins are not "
+           "consulted); the historical rule 'descend to the innermost header' does NOT satisfy the statement (kernel-checked witness). Tied to the real icrypto.VerifyRequestSignatures / WithContext / N3 by a "
            "differential run on really signed requests (ECDSA SHA-512, RFC 6979, WalletConnect, N3 witnesses through a table script runner) of "
-           "depth 1-4 re-signed as forwarding does and then mutated; verdict, depth and error cause are compared line by line.",
+           "depth 1-4 re-signed as forwarding does and then mutated; verdict, depth, error cause and the answer of the real GetRequestAuthor "
+           "(key name / failure / panic) are compared line by line; oracle on the real outputs: the author of an accepted request is the key "
+           "of a body signature that verification examined and that the harness itself made over this very body.",
      note="Proved: the acceptance logic over an abstract signature primitive. Exercised only: that the SDK's chain walk (code outside /repo, "
           "module neofs-sdk-go) and the repo's wrappers behave as Model/SigChain.lean on the generated requests; the model's verify table is "
           "'this (key, scheme, signature) value was produced by the harness for exactly these bytes' and is computed without asking the real "
@@ -27,11 +37,15 @@ prop("C33",
           "As the code has it (flat_variant_ignores_inner_layers): when the outermost meta header states version >= 2.25 the inner verification "
           "headers are not examined at all (API 2.25 deprecates origins; the outermost signer covers body and the whole nested meta chain) - "
           "'every layer' then means the single outermost layer; consumers that still walk the origin chain (cmd/neofs-node/reputation.go "
-          "reverseRoute) read unauthenticated keys in that variant. GetRequestAuthor is not modelled.",
+          "reverseRoute) read unauthenticated keys in that variant. GetRequestAuthor itself does not look below the top layer (modelled, "
+          "requestAuthor); key bytes are named by small ids (8 ECDSA keys, their N3 scripts, one undecodable key).",
      rule="grid: depth 1..4 x version {2.18, 2.25, none} x every layer x every signature kind x {flip a signature byte, nil it, empty key, "
           "undecodable key, other key, other scheme, empty signature, valid re-sign by another key} plus per layer drop/duplicate/truncate of one "
           "chain, swap of adjacent layers, meta edits (epoch, ttl, x-header, version up/down/nil), body edits, nil headers; the exemption table "
-          "api x trusted x ttl 0..3 x header/meta present; N3 witnesses through all three entry points; 1500 (quick) / 40000 (thorough) seeded "
+          "api x trusted x ttl 0..3 x header/meta present; the author grid: "
+          "existing requests of 1..3 layers (inner version 2.18 / 2.25 / none) taken by another key, body kept or changed, wrapped into a top "
+          "meta header of version {2.24, 2.25, 2.26, 3.0, 1.99, none} and signed as forwarding does, or re-signed in place at the top layer; "
+          "N3 authors and scheme/key defects of the top body signature; N3 witnesses through all three entry points; 1500 (quick) / 40000 (thorough) seeded "
           "requests with mixed versions/schemes and 0..3 mutations incl. honest extra hops and copied signatures; non-trivial = at least two "
           "verification layers and at least one mutation; distinct by op",
      trusted=["neofs-sdk-go crypto/proto.go VerifyRequestWithBufferN3 is hand-modelled (Model/SigChain.lean) and tied by correspondence only",
